@@ -60,6 +60,15 @@ def endFn (hd : Handlers) (r : VRes) (base : Nat) : VRes :=
     ⟨Exit.ret.withErr c.1, c.2.1, r.log ++ c.2.2⟩
   | x => ⟨x, r.stack, r.log⟩
 
+/-- `return f()`: `r` is the result of the called function; if it came back normally, return (clean up to
+    the frame base) -/
+def retAfter (hd : Handlers) (r : VRes) (base : Nat) : VRes :=
+  match r.exit.leaveFunction with
+  | .normal =>
+    let j := jumpTo hd r.stack base .ret
+    ⟨j.exit, j.stack, r.log ++ j.log⟩
+  | x => ⟨x, r.stack, r.log⟩
+
 def dexec (hd : Handlers) (kill : Bool) : Prog → Env → (base : Nat) → List TV → VRes
   | .skip, _, _, st => ⟨.normal, st, []⟩
   | .seq a b, env, base, st =>
@@ -90,13 +99,15 @@ def dexec (hd : Handlers) (kill : Bool) : Prog → Env → (base : Nat) → List
   | .pcall p, _, _, st =>
     let r := endFn hd (dexec hd kill p [] st.length st) st.length
     match r.exit with
-    | .kill e => ⟨.kill e, r.stack.drop (r.stack.length - st.length), r.log⟩
+    | .kill e => ⟨.kill e, r.stack, r.log⟩
     | x =>
       let cl := cleanup hd r.stack st.length x.errArg
       ⟨.normal, cl.2.1, r.log ++ cl.2.2 ++ [.caught cl.1]⟩
   | .call p, _, _, st =>
     let r := endFn hd (dexec hd kill p [] st.length st) st.length
     ⟨r.exit.leaveFunction, r.stack, r.log⟩
+  | .retCall p, _, base, st =>
+    retAfter hd (endFn hd (dexec hd kill p [] st.length st) st.length) base
   | .yield, _, _, st => ⟨if kill then .kill none else .normal, st, []⟩
 
 /-! ### contexts -/
@@ -673,6 +684,22 @@ theorem endFn_suffix (hd : Handlers) (r : VRes) (L : Nat) (below : List TV) (hl 
   | err e => exact ⟨t, ht⟩
   | kill e => exact ⟨t, ht⟩
 
+theorem dexec_retCall (hd : Handlers) (kill : Bool) (p : Prog) (env : Env) (base : Nat) (st : List TV) :
+    dexec hd kill (.retCall p) env base st =
+      retAfter hd (endFn hd (dexec hd kill p [] st.length st) st.length) base := rfl
+
+theorem retAfter_suffix (hd : Handlers) (r : VRes) (base : Nat) (below : List TV) (hb : below.length ≤ base)
+    (hr : ∃ t, r.stack = t ++ below) : ∃ t, (retAfter hd r base).stack = t ++ below := by
+  obtain ⟨t, ht⟩ := hr
+  unfold retAfter
+  cases r.exit.leaveFunction with
+  | normal => simp only [jumpTo]; rw [ht]; exact cleanup_suffix hd below t base none hb
+  | brk => exact ⟨t, ht⟩
+  | goto k => exact ⟨t, ht⟩
+  | ret => exact ⟨t, ht⟩
+  | err e => exact ⟨t, ht⟩
+  | kill e => exact ⟨t, ht⟩
+
 /-- `dexec` never touches the stack below the frame base and below every enclosing block's entry -/
 theorem dexec_suffix (hd : Handlers) (kill : Bool) : ∀ (p : Prog) (env : Env) (base : Nat)
     (top below : List TV), below.length ≤ base → (∀ b ∈ env, below.length ≤ b.2) →
@@ -760,9 +787,7 @@ theorem dexec_suffix (hd : Handlers) (kill : Bool) : ∀ (p : Prog) (env : Env) 
     | kill e =>
       simp only
       rw [h1]
-      refine ⟨top, ?_⟩
-      have : (t1 ++ (top ++ below)).length - (top ++ below).length = t1.length := by simp
-      rw [this, List.drop_left]
+      exact ⟨t1 ++ top, by rw [List.append_assoc]⟩
     | normal =>
       simp only; rw [h1]
       have := cleanup_suffix hd (top ++ below) t1 (top ++ below).length Exit.normal.errArg (Nat.le_refl _)
@@ -797,6 +822,16 @@ theorem dexec_suffix (hd : Handlers) (kill : Bool) : ∀ (p : Prog) (env : Env) 
         have := ih [] (top ++ below).length [] (top ++ below) (Nat.le_refl _) (fun b hb => by simp at hb)
         simpa using this)
     exact ⟨t1 ++ top, by rw [h1, List.append_assoc]⟩
+  | retCall p ih =>
+    intro env base top below hb _
+    rw [dexec_retCall]
+    apply retAfter_suffix hd _ base below hb
+    obtain ⟨t1, h1⟩ := endFn_suffix hd (dexec hd kill p [] (top ++ below).length (top ++ below))
+      (top ++ below).length (top ++ below) (Nat.le_refl _)
+      (by
+        have := ih [] (top ++ below).length [] (top ++ below) (Nat.le_refl _) (fun b hb => by simp at hb)
+        simpa using this)
+    exact ⟨t1 ++ top, by rw [h1, List.append_assoc]⟩
 
 theorem vexec_block (hd : Handlers) (kill : Bool) (c : Code) (base : Nat) (st : List TV) :
     vexec hd kill (.block c) base st =
@@ -818,7 +853,7 @@ theorem dexec_loop (hd : Handlers) (kill : Bool) (n : Nat) (p : Prog) (env : Env
 /-- what a protected call makes of the result `r` of the function body started on stack `st` -/
 def pcallEnd (hd : Handlers) (r : VRes) (st : List TV) : VRes :=
   match r.exit with
-  | .kill e => ⟨.kill e, r.stack.drop (r.stack.length - st.length), r.log⟩
+  | .kill e => ⟨.kill e, r.stack, r.log⟩
   | x =>
     let cl := cleanup hd r.stack st.length x.errArg
     ⟨.normal, cl.2.1, r.log ++ cl.2.2 ++ [.caught cl.1]⟩
@@ -983,6 +1018,28 @@ theorem dexec_ret (hd : Handlers) (kill : Bool) : ∀ (p : Prog) (env : Env) (ba
     simp only at h
     generalize (endFn hd (dexec hd kill p [] (top ++ below).length (top ++ below)) (top ++ below).length).exit = x at h
     cases x <;> simp [Exit.leaveFunction] at h
+  | retCall p ih =>
+    intro env base top below hb _ h
+    rw [dexec_retCall] at h ⊢
+    obtain ⟨t1, h1⟩ := endFn_suffix hd (dexec hd kill p [] (top ++ below).length (top ++ below))
+      (top ++ below).length (top ++ below) (Nat.le_refl _)
+      (by
+        have := dexec_suffix hd kill p [] (top ++ below).length [] (top ++ below) (Nat.le_refl _)
+          (fun b hb => by simp at hb)
+        simpa using this)
+    generalize endFn hd (dexec hd kill p [] (top ++ below).length (top ++ below)) (top ++ below).length = r at h h1 ⊢
+    unfold retAfter at h ⊢
+    cases hx : r.exit.leaveFunction with
+    | normal =>
+      rw [hx] at h
+      simp only [jumpTo] at h ⊢
+      rw [h1, ← List.append_assoc, ← hb]
+      exact cleanup_exact hd (t1 ++ top) below none
+    | brk => rw [hx] at h; simp at h
+    | goto k => rw [hx] at h; simp at h
+    | ret => generalize r.exit = y at hx; cases y <;> simp [Exit.leaveFunction] at hx
+    | err e => rw [hx] at h; simp at h
+    | kill e => rw [hx] at h; simp at h
 
 theorem endFn_ret (hd : Handlers) (r : VRes) (below : List TV)
     (hs : ∃ t, r.stack = t ++ below) (hr : r.exit = .ret → r.stack = below) :
@@ -1253,6 +1310,18 @@ theorem dexec_exitOK (hd : Handlers) (kill : Bool) : ∀ (p : Prog) (d : Nat) (l
     rw [dexec_call]
     simp only
     cases (endFn hd (dexec hd kill p [] st.length st) st.length).exit <;> trivial
+  | retCall p ih =>
+    intro d l env base st _
+    rw [dexec_retCall]
+    unfold retAfter
+    generalize endFn hd (dexec hd kill p [] st.length st) st.length = r
+    cases hx : r.exit.leaveFunction with
+    | normal => exact jumpTo_exitOK hd r.stack base .ret d l trivial
+    | brk => generalize r.exit = y at hx; cases y <;> simp [Exit.leaveFunction] at hx
+    | goto k => generalize r.exit = y at hx; cases y <;> simp [Exit.leaveFunction] at hx
+    | ret => trivial
+    | err e => trivial
+    | kill e => trivial
 
 theorem endFn_exit (hd : Handlers) (r : VRes) (L : Nat) (h : ExitOK r.exit 0 false) :
     (endFn hd r L).exit ≠ .normal ∧ (endFn hd r L).exit ≠ .brk ∧ ∀ g, (endFn hd r L).exit ≠ .goto g := by
@@ -1547,5 +1616,79 @@ theorem vexec_compile (hd : Handlers) (kill : Bool) : ∀ (p : Prog) (ctx : Ctx)
         exact congrArg List.length hret
       | err e => exact fun len hl => by simp [Exit.leaveFunction, exitLen] at hl
       | kill e => exact fun len hl => by simp [Exit.leaveFunction, exitLen] at hl
+  | retCall p ih =>
+    intro ctx hinv hwf
+    have hinv' : CtxInv [⟨.root, 0⟩] := ⟨rfl, rfl⟩
+    have hwf' : wf p 0 false = true := by simpa [wf] using hwf
+    obtain ⟨cp, L1, hcp, hL1, hinv1, hp⟩ := ih [⟨.root, 0⟩] hinv' (by simpa [wf, ctxBlocks] using hwf)
+    refine ⟨if 0 < topHeight ctx then .seq (.call (fnCode cp (L1 ++ [⟨.root, 0⟩]))) .ret
+        else .tailcall (fnCode cp (L1 ++ [⟨.root, 0⟩])), [], ?_, allLoc_nil, hinv, ?_⟩
+    · simp only [compile, hcp, List.nil_append]
+    · intro base st hlen
+      obtain ⟨e1, _⟩ := hp st.length st (by simp [topHeight])
+      have henv : shiftEnv st.length (ctxBlocks [⟨.root, 0⟩]) = [] := rfl
+      rw [henv] at e1
+      have hex := endFn_exit hd _ st.length (dexec_exitOK hd kill p 0 false [] st.length st hwf')
+      have hret := endFn_ret hd (dexec hd kill p [] st.length st) st
+        (by simpa using dexec_suffix hd kill p [] st.length [] st (Nat.le_refl _) (fun b hb => by simp at hb))
+        (by simpa using dexec_ret hd kill p [] st.length [] st rfl (fun b hb => by simp at hb))
+      rw [dexec_retCall]
+      have hfn : vexec hd kill (fnCode cp (L1 ++ [⟨.root, 0⟩])) st.length st =
+          endFn hd (dexec hd kill p [] st.length st) st.length := by rw [fn_exec, e1]
+      generalize endFn hd (dexec hd kill p [] st.length st) st.length = r at hex hret hfn
+      obtain ⟨x, stk, lg⟩ := r
+      simp only at hex hret
+      constructor
+      · by_cases hh : 0 < topHeight ctx
+        · simp only [hh, if_true]
+          rw [show vexec hd kill (.seq (.call (fnCode cp (L1 ++ [⟨.root, 0⟩]))) .ret) base st =
+              (let ra := vexec hd kill (.call (fnCode cp (L1 ++ [⟨.root, 0⟩]))) base st
+               match ra.exit with
+               | .normal =>
+                 let rb := vexec hd kill .ret base ra.stack
+                 ⟨rb.exit, rb.stack, ra.log ++ rb.log⟩
+               | _ => ra) from rfl]
+          rw [vexec_call, hfn]
+          cases x with
+          | normal => exact absurd rfl hex.1
+          | brk => exact absurd rfl hex.2.1
+          | goto g => exact absurd rfl (hex.2.2 g)
+          | ret => rfl
+          | err e => rfl
+          | kill e => rfl
+        · simp only [hh, if_false]
+          have hb : st.length = base := by omega
+          rw [show vexec hd kill (.tailcall (fnCode cp (L1 ++ [⟨.root, 0⟩]))) base st =
+              (let cl := cleanup hd st base none
+               match cl.1 with
+               | some e => ⟨.err e, cl.2.1, cl.2.2⟩
+               | none =>
+                 let r := vexec hd kill (fnCode cp (L1 ++ [⟨.root, 0⟩])) st.length cl.2.1
+                 ⟨r.exit.leaveFunction.thenReturn, r.stack, cl.2.2 ++ r.log⟩) from rfl]
+          rw [cleanup_le hd st base none (by omega)]
+          simp only [hfn, List.nil_append]
+          cases x with
+          | normal => exact absurd rfl hex.1
+          | brk => exact absurd rfl hex.2.1
+          | goto g => exact absurd rfl (hex.2.2 g)
+          | ret =>
+            have hs : stk = st := hret rfl
+            subst hs
+            simp only [retAfter, Exit.leaveFunction, Exit.thenReturn, jumpTo]
+            rw [cleanup_le hd stk base none (by omega)]
+            simp [Exit.withErr]
+          | err e => rfl
+          | kill e => rfl
+      · apply post_of_not_landing
+        unfold retAfter
+        cases x with
+        | normal => exact absurd rfl hex.1
+        | brk => exact absurd rfl hex.2.1
+        | goto g => exact absurd rfl (hex.2.2 g)
+        | ret =>
+          simp only [Exit.leaveFunction, jumpTo]
+          cases (cleanup hd stk base none).1 <;> simp [Exit.withErr]
+        | err e => simp [Exit.leaveFunction]
+        | kill e => simp [Exit.leaveFunction]
 
 end GoluaVerif.Proofs.Tbc
